@@ -244,8 +244,13 @@ func init() {
 							}
 							for _, a := range x.Args {
 								if fl := childField(a); fl != "" {
-									for _, k := range kindsAt(append(stack, n)) {
+									ks := kindsAt(append(stack, n))
+									for _, k := range ks {
 										visited[pair{k, fl}] = true
+									}
+									if len(ks) == 0 {
+										// visited whatever the kind (e.g. under `if ty.F != nil`)
+										visited[pair{"*", fl}] = true
 									}
 								}
 							}
@@ -264,7 +269,7 @@ func init() {
 				return keys[i].f < keys[j].f
 			})
 			for _, p := range keys {
-				r.Check(visited[p], "tars2go/parse."+resolver.Name.Name, "child "+p.f+" of kind "+p.k, built[p], "the resolver calls itself on ty."+p.f+" under ty.Type == token."+p.k, "the parser builds a %s type with child %s, but %s does not visit ty.%s when ty.Type == token.%s: a named type used there is never resolved (an enum is emitted as a struct: the generated code does not compile; a type of another module gets no import; an undefined name gets no diagnostic)", p.k, p.f, resolver.Name.Name, p.f, p.k)
+				r.Check(visited[p] || visited[pair{"*", p.f}], "tars2go/parse."+resolver.Name.Name, "child "+p.f+" of kind "+p.k, built[p], "the resolver calls itself on ty."+p.f+" under ty.Type == token."+p.k, "the parser builds a %s type with child %s, but %s does not visit ty.%s when ty.Type == token.%s: a named type used there is never resolved (an enum is emitted as a struct: the generated code does not compile; a type of another module gets no import; an undefined name gets no diagnostic)", p.k, p.f, resolver.Name.Name, p.f, p.k)
 			}
 		}})
 }
